@@ -19,6 +19,8 @@ type tablePolicy struct {
 	// container passes through unchanged there (justification J5), so these positions
 	// must be ones whose scalar form is not a client literal
 	ShapePassAllow map[string]string `json:"shape_pass_allow"`
+	// stage names whose whole argument, when a string, is a collection name
+	NamespaceStageAllow map[string]string `json:"namespace_stage_allow"`
 }
 
 func loadTablePolicy() (*tablePolicy, error) {
